@@ -11,12 +11,15 @@ import (
 	"bytes"
 	"encoding/binary"
 	"fmt"
+	"sync"
 	"testing"
 
 	"github.com/datastax/go-cassandra-native-protocol/frame"
+	"github.com/datastax/go-cassandra-native-protocol/message"
 	"github.com/datastax/go-cassandra-native-protocol/primitive"
 	"pgregory.net/rapid"
 
+	"verifharness/canon"
 	"verifharness/gen"
 	"verifharness/ref"
 	"verifharness/stats"
@@ -212,3 +215,107 @@ func TestC02Headers(t *testing.T) {
 	rec.Exhaustive("(version byte, opcode) headers", n)
 	rec.AddSample(fmt.Sprintf("header sweep: %d (version byte, opcode) pairs, %d rejected; e.g. 04 00 0000 ff 00000000 (REVISE under OSS v4) must be rejected by DecodeFrame", n, rejected))
 }
+
+// the shape enumeration of C01 against the reference encoder, both directions
+func TestC02Shapes(t *testing.T) {
+	rec := stats.For("C02")
+	sh, nsh := shard()
+	idx := 0
+	var n int64
+	codec := frame.NewRawCodec()
+	forEachShape(func(v primitive.ProtocolVersion, m message.Message, what string) bool {
+		idx++
+		if idx%nsh != sh {
+			return true
+		}
+		f := frame.NewFrame(v, 5, m.DeepCopyMessage())
+		enc, err := encodeFrame(codec, f)
+		if err != nil {
+			rec.Violation("shape-encode", fmt.Sprintf("v%d %s: EncodeFrame failed: %v", v, what, err))
+			t.Errorf("v%d %s: EncodeFrame failed: %v", v, what, err)
+			return false
+		}
+		re, err := ref.EncodeFrame(f)
+		if err != nil {
+			t.Errorf("harness defect: reference encoder rejects shape v%d %s: %v", v, what, err)
+			return false
+		}
+		if d := re.Match(enc); d != "" {
+			rec.Violation("shape-bytes", fmt.Sprintf("v%d %s: %s", v, what, d))
+			t.Errorf("v%d %s: bytes differ from the specification: %s", v, what, d)
+			return false
+		}
+		dec, err := codec.DecodeFrame(bytes.NewReader(re.Flat([]int{1, 3})))
+		if err != nil || diffFrames(f, dec) != "" {
+			rec.Violation("shape-decode", fmt.Sprintf("v%d %s: specification bytes decode to a different frame (%v)", v, what, err))
+			t.Errorf("v%d %s: specification bytes decode to a different frame (%v)", v, what, err)
+			return false
+		}
+		n++
+		return true
+	})
+	rec.Bulk(n, n, "shapes")
+	rec.Exhaustive("optional-field subsets of QueryOptions/Batch/RowsMetadata x versions vs the reference encoder (this shard's share)", n)
+}
+
+var variantMu sync.Mutex
+
+// Specification-legal encodings the library's own encoder never emits must decode to the frame they denote:
+// per-column table specs although all columns share a table (global-tables flag clear), type option 0x000A (Text) for
+// varchar columns in protocol v2, a non-zero byte other than 1 for a true <data_present>.
+func c02SpecForms(rt *rapid.T) {
+	rec := stats.For("C02")
+	v := gen.Version(rt)
+	form := rapid.SampledFrom([]string{"per-column-table-spec", "v2-text-code", "true-byte"}).Draw(rt, "form")
+	if form == "v2-text-code" {
+		v = primitive.ProtocolVersion2
+	}
+	o := c02Opts()
+	names := []string{"RESULT/Rows", "RESULT/Prepared"}
+	if form == "true-byte" {
+		names = []string{"ERROR/ReadTimeout"}
+		if gen.AtLeast(v, 4) {
+			names = append(names, "ERROR/ReadFailure")
+		}
+	}
+	name := rapid.SampledFrom(names).Draw(rt, "kind")
+	var f *frame.Frame
+	for _, k := range gen.KindsFor(v) {
+		if k.Name == name {
+			f = gen.FrameOf(rt, v, k, k.Draw(rt, v, o), false).Frame
+		}
+	}
+	if f == nil {
+		rt.Fatalf("harness defect: kind %s not defined for %v", name, v)
+	}
+	variantMu.Lock()
+	defer variantMu.Unlock()
+	switch form {
+	case "per-column-table-spec":
+		ref.Variant = ref.Variants{PerColumnTableSpec: true}
+	case "v2-text-code":
+		ref.Variant = ref.Variants{V2TextCode: true}
+	default:
+		ref.Variant = ref.Variants{TrueByte: rapid.SampledFrom([]byte{1, 2, 0x7f, 0x80, 0xff}).Draw(rt, "trueByte")}
+	}
+	enc, err := ref.EncodeFrame(f)
+	ref.Variant = ref.Variants{}
+	if err != nil {
+		rt.Fatalf("harness defect: %v", err)
+	}
+	std, _ := ref.EncodeFrame(f)
+	spec := enc.Flat(nil)
+	differs := !bytes.Equal(spec, std.Flat(nil))
+	dec, err := frame.NewRawCodec().DecodeFrame(bytes.NewReader(spec))
+	if err != nil {
+		rt.Fatalf("specification-legal bytes (%s) do not decode: %v\n%s\nbytes %x", form, err, canon.Render(f), clipBytes(spec))
+	}
+	want := f.DeepCopy()
+	want.Header.BodyLength = dec.Header.BodyLength
+	if d := diffFrames(want, dec); d != "" {
+		rt.Fatalf("specification-legal bytes (%s) decode to a different frame: %s\n%s", form, d, canon.Render(f))
+	}
+	rec.Case(differs, stats.Hash(spec, []byte(form)), func() string { return fmt.Sprintf("spec form %s v%d: %x", form, v, clipBytes(spec)) }, "form:"+form, fmt.Sprintf("form-differs:%v", differs))
+}
+
+func TestC02SpecForms(t *testing.T) { rapid.Check(t, c02SpecForms) }
